@@ -22,4 +22,12 @@ def extra_checks(meta, outdir, tier, seed, V):
         if rc != 0 or not m or m.group(2) != "true":
             violations.append(("model-vs-spec", "exhaustive sweep nb=%d dmax=%d kmax=%d: repaired Go model and Substrate specification disagree" % (nb, d, k),
                                out[-2000:], True))
+    # bin/check replaces its own extra coverage (the vm_compute sample counters) by what this hook
+    # returns; put the number of cross-checked cases back (a disagreement is reported by bin/check
+    # itself as a broken correspondence, so reaching this point with rc 0 means there was none)
+    try:
+        src = open(os.path.join(outdir, "vm", "cases.v")).read()
+        cov["vm_compute_cross_checked"] = src.count("::\n")
+    except OSError:
+        pass
     return {"coverage": cov, "violations": violations, "known": []}
